@@ -20,18 +20,18 @@ add("C01.6-arith", ["grammar::params::_param_list_openqasm|assert:Overflow(Add)|
 # ---------------- lexer (C01.6-L) -----------------
 L = "C01.6-inventory"
 AT = ["lexer::advance_token"]
-add(L, ["lexer::block_comment|debug_assert:assertion failed: self.prev() == '/' && self.first() == '*'|0"], "called only from the `'/'` arm of advance_token under `self.first() == '*'`; prev is the '/' just bumped", ["oq3_lexer::advance_token"])
-add(L, ["lexer::line_comment|debug_assert:assertion failed: self.prev() == '/' && self.first() == '/'|0"], "called only from the `'/'` arm of advance_token under `self.first() == '/'`", ["oq3_lexer::advance_token"])
-add(L, ["lexer::whitespace|debug_assert:assertion failed: is_whitespace(self.prev())|0"], "called only from the arm `c if is_whitespace(c)` of advance_token; prev == c", ["oq3_lexer::advance_token"])
-add(L, ["lexer::ident_or_unknown_prefix|debug_assert:assertion failed: is_id_start(self.prev())|0"], "callers: advance_token arms 'O' (no bump consumed yet unless have_openqasm bumped XID letters P,E,N,...: prev is then one of those letters, all XID_Start), `c if is_id_start(c)`, and pragma_or_ident_or_unknown_prefix (first char 'p', have_pragma bumps only the letters r,a,g,m,a which are XID_Start, or whitespace-terminated => returned Pragma instead)", ["oq3_lexer::advance_token", "oq3_lexer::pragma_or_ident_or_unknown_prefix"])
-add(L, ["lexer::number|debug_assert:assertion failed: '0' <= self.prev() && self.prev() <= '9'|0"], "called only from the arm `c @ '0'..='9'` of advance_token; prev == c", ["oq3_lexer::advance_token"])
-add(L, ["lexer::float_with_no_leading_digit|debug_assert:assertion failed: self.first().is_ascii_digit()|0"], "called only from the '.' arm under `match self.first() { '0'..='9' => ...`", ["oq3_lexer::advance_token"])
-add(L, ["lexer::eat_float_exponent|debug_assert:assertion failed: self.prev() == 'e' || self.prev() == 'E'|0"], "every call is preceded by `self.bump()` under `match self.first() { 'e' | 'E' => ...`", ["oq3_lexer::number", "oq3_lexer::float_with_no_leading_digit"])
-add(L, ["lexer::double_quoted_string|debug_assert:assertion failed: self.prev() == '\"'|0"], "called only from the '\"' arm of advance_token", ["oq3_lexer::advance_token"])
-add(L, ["lexer::single_quoted_string|debug_assert:assertion failed: self.prev() == '\\''|0"], "called only from the '\\'' arm of advance_token", ["oq3_lexer::advance_token"])
-add(L, ["lexer::block_comment|assert:Overflow(Add)|0"], "`depth += 1` (usize) once per nested `/*`, i.e. at most once per two input bytes; " + SIZE)
-add(L, ["lexer::block_comment|assert:Overflow(Sub)|0"], "`depth -= 1`: depth starts at 1, the loop breaks as soon as depth == 0, so depth >= 1 whenever the decrement is reached")
-add(L, ["lexer::double_quoted_string|assert:Overflow(Add)|0", "lexer::single_quoted_string|assert:Overflow(Add)|0"], "`count_newlines += 1` (i32) once per '\\n' byte; " + SIZE + " (this is why the bound is 2^31)")
+add(L, ["lexer::Cursor::block_comment|debug_assert:assertion failed: self.prev() == '/' && self.first() == '*'|0"], "called only from the `'/'` arm of advance_token under `self.first() == '*'`; prev is the '/' just bumped", ["oq3_lexer::Cursor::advance_token"])
+add(L, ["lexer::Cursor::line_comment|debug_assert:assertion failed: self.prev() == '/' && self.first() == '/'|0"], "called only from the `'/'` arm of advance_token under `self.first() == '/'`", ["oq3_lexer::Cursor::advance_token"])
+add(L, ["lexer::Cursor::whitespace|debug_assert:assertion failed: is_whitespace(self.prev())|0"], "called only from the arm `c if is_whitespace(c)` of advance_token; prev == c", ["oq3_lexer::Cursor::advance_token"])
+add(L, ["lexer::Cursor::ident_or_unknown_prefix|debug_assert:assertion failed: is_id_start(self.prev())|0"], "callers: advance_token arms 'O' (no bump consumed yet unless have_openqasm bumped XID letters P,E,N,...: prev is then one of those letters, all XID_Start), `c if is_id_start(c)`, and pragma_or_ident_or_unknown_prefix (first char 'p', have_pragma bumps only the letters r,a,g,m,a which are XID_Start, or whitespace-terminated => returned Pragma instead)", ["oq3_lexer::Cursor::advance_token", "oq3_lexer::Cursor::pragma_or_ident_or_unknown_prefix"])
+add(L, ["lexer::Cursor::number|debug_assert:assertion failed: '0' <= self.prev() && self.prev() <= '9'|0"], "called only from the arm `c @ '0'..='9'` of advance_token; prev == c", ["oq3_lexer::Cursor::advance_token"])
+add(L, ["lexer::Cursor::float_with_no_leading_digit|debug_assert:assertion failed: self.first().is_ascii_digit()|0"], "called only from the '.' arm under `match self.first() { '0'..='9' => ...`", ["oq3_lexer::Cursor::advance_token"])
+add(L, ["lexer::Cursor::eat_float_exponent|debug_assert:assertion failed: self.prev() == 'e' || self.prev() == 'E'|0"], "every call is preceded by `self.bump()` under `match self.first() { 'e' | 'E' => ...`", ["oq3_lexer::Cursor::number", "oq3_lexer::Cursor::float_with_no_leading_digit"])
+add(L, ["lexer::Cursor::double_quoted_string|debug_assert:assertion failed: self.prev() == '\"'|0"], "called only from the '\"' arm of advance_token", ["oq3_lexer::Cursor::advance_token"])
+add(L, ["lexer::Cursor::single_quoted_string|debug_assert:assertion failed: self.prev() == '\\''|0"], "called only from the '\\'' arm of advance_token", ["oq3_lexer::Cursor::advance_token"])
+add(L, ["lexer::Cursor::block_comment|assert:Overflow(Add)|0"], "`depth += 1` (usize) once per nested `/*`, i.e. at most once per two input bytes; " + SIZE)
+add(L, ["lexer::Cursor::block_comment|assert:Overflow(Sub)|0"], "`depth -= 1`: depth starts at 1, the loop breaks as soon as depth == 0, so depth >= 1 whenever the decrement is reached")
+add(L, ["lexer::Cursor::double_quoted_string|assert:Overflow(Add)|0", "lexer::Cursor::single_quoted_string|assert:Overflow(Add)|0"], "`count_newlines += 1` (i32) once per '\\n' byte; " + SIZE + " (this is why the bound is 2^31)")
 add(L, ["lexer::cursor::Cursor::pos_within_token|assert:Overflow(Sub)|0"], "len_remaining is the length of chars.as_str() at the last reset (or at construction) and chars only shrinks (C14.1: the only mutator of `chars` is Chars::next), so len_remaining >= chars.as_str().len()")
 # unescape (reached from validation only)
 add(L, ["lexer::unescape::scan_escape|assert:Overflow(Mul)|0", "lexer::unescape::scan_escape|assert:Overflow(Add)|0"], "`hi * 16 + lo` with hi, lo = to_digit(16) results < 16")
@@ -73,16 +73,17 @@ add(L, ["parser::shortcuts::Builder::do_float_split|assert:Overflow(Add)|0", "pa
 add(L, ["parser::shortcuts::Builder::do_token|assert:Overflow(Add)|0", "parser::shortcuts::Builder::do_token|assert:Overflow(Add)|1"], "`self.pos + n_tokens` <= number of tokens (see range_text)")
 add(L, ["parser::shortcuts::Builder::eat_n_trivias|assert:assertion failed: kind.is_trivia()|0"], "eat_n_trivias(n) is called with n_trivias - n_attached and n_attached, both <= n_trivias = the number of consecutive trivia tokens counted from self.pos by the same predicate (C02.3 checks the two arguments sum to n_trivias)")
 add(L, ["parser::shortcuts::Builder::enter|assert:Overflow(Add)|0", "parser::shortcuts::Builder::enter|assert:Overflow(Sub)|0"], "`pos + n_trivias` <= len(); `n_trivias - n_attached`: n_attached_trivias returns res = i + 1 for an index i of the enumerated (reversed) leading trivias, so res <= n_trivias")
-add(L, ["parser::shortcuts::Builder::exit|unreachable:internal error: entered unreachable code|0", "parser::shortcuts::Builder::token|unreachable:internal error: entered unreachable code|0", "parser::shortcuts::intersperse_trivia|unreachable:internal error: entered unreachable code|0"],
+add(L, ["parser::shortcuts::Builder::exit|unreachable:internal error: entered unreachable code|0", "parser::shortcuts::Builder::token|unreachable:internal error: entered unreachable code|0", "parser::shortcuts::LexedStr::intersperse_trivia|unreachable:internal error: entered unreachable code|0"],
     "state machine: the state starts as PendingEnter and the first step is always Enter (source_file starts with p.start(), C02.4), after which the state is never PendingEnter again; the final step is the Exit of SOURCE_FILE, leaving PendingExit")
 add(L, ["parser::shortcuts::n_attached_trivias|assert:Overflow(Add)|0"], "`i + 1` for an enumerate index over the trivia tokens")
 add(L, ["parser::token_set::mask|assert:Overflow(Shl)|0"], "`1u128 << kind`: reached at run time only from TokenSet::contains behind the `kind < 128` guard (C01.4); TokenSet::new is const-evaluated")
 # ---------------- syntax crate -----------------
-add(L, ["syntax::parse|assert_eq:|0", "syntax::parse_check_lex|assert_eq:|0"], "root.kind() == SOURCE_FILE: the first Enter step is the SOURCE_FILE node completed by grammar::entry::top::source_file (C02.4 single root)")
+add(L, ["syntax::SourceFile::parse|assert_eq:|0", "syntax::SourceFile::parse_check_lex|assert_eq:|0"], "root.kind() == SOURCE_FILE: the first Enter step is the SOURCE_FILE node completed by grammar::entry::top::source_file (C02.4 single root)")
 add(L, ["syntax::parsing::build_tree|unwrap<-try_into|0", "syntax::parsing::build_tree|unwrap<-try_into|1", "syntax::parsing::build_tree::{closure#0}|unwrap<-try_into|0", "syntax::parsing::lexer_errors_to_syntax_errors|unwrap<-try_into|0", "syntax::parsing::lexer_errors_to_syntax_errors|unwrap<-try_into|1"],
     "usize -> u32 (TextSize) conversion of a byte offset into the text; " + SIZE)
 add(L, ["syntax::validation::validate_literal::{closure#0}|assert:Overflow(Add)|0", "syntax::validation::validate_literal::{closure#0}|unwrap<-try_from|0"], "`off + prefix_len` is a byte offset inside the literal token; " + SIZE)
-add(L, ["syntax::ast::expr_ext::token|unwrap<-and_then|0"], "Literal::token(): a LITERAL node is completed only by atom::literal between p.start() and complete() with exactly one bump_any() of a non-EOF token (window refined by LITERAL_FIRST), so it has a first non-trivia token child. (Before the marker fix `3ns[0];` violated this; now covered by C01.5 MARKER-LIFO.)")
+add(L, ["syntax::ast::expr_ext::Literal::token|unwrap<-and_then|0"], "Literal::token(): a LITERAL node is completed only by atom::literal between p.start() and complete() with exactly one bump_any() of a non-EOF token (window refined by LITERAL_FIRST), so it has a first non-trivia token child. (Before the marker fix `3ns[0];` violated this; now covered by C01.5 MARKER-LIFO.)")
+add(L, ["syntax::ast::expr_ext::Literal::kind|unreachable:internal error: entered unreachable code|0"], "Literal::kind(): the token of a LITERAL node is the one token bumped by atom::literal under p.at_ts(LITERAL_FIRST) = {BIT_STRING, BYTE, CHAR, FLOAT_NUMBER, INT_NUMBER, STRING, true, false}; the six AstToken casts cover the first six kinds (can_cast tables of generated/tokens.rs) and the final match the two keywords")
 add(L, ["syntax::validation::validate_timing_literal|unwrap<-identifier|0"], "TimingLiteral::identifier(): TIMING_LITERAL is completed only by atom::literal after identifier(p), which always completes an IDENTIFIER node (p.expect(IDENT) under `matches!(p.nth(1), IDENT)`)")
 add(L, ["syntax::ast::node_ext::text_of_first_token::first_token|unwrap<-and_then|0"], "text_of_first_token is reached in this cone only through ast accessors on nodes that contain at least one token (NAME / IDENTIFIER are completed after a bump or an error; see C03 inventory for the semantic cone)")
 out = [{"key": k, **v} for k, v in sorted(R.items())]
